@@ -330,9 +330,10 @@ fn handle(line: &str) -> Option<String> {
             for _ in 0..n {
                 let name = t.s()?;
                 let parent = t.opt()?;
-                if bag
-                    .add_context_or_builder(Context::new(name, parent), true)
-                    .is_err()
+                let mut context = Context::new(name, parent);
+                // the loader always records the defining file (error messages print it)
+                context.defined_in = Some("oracle.yml".into());
+                if bag.add_context_or_builder(context, true).is_err()
                 {
                     return Some("err duplicate".to_string());
                 }
